@@ -172,3 +172,22 @@ Print Assumptions C08_generated_set_countdown_is_model.
 Theorem C08_generated_lt_is_job_lt : forall s a b, EASGen.GenJobs.g_JobBase_lt a b s = job_lt s a b.
 Proof. exact GenJobsEq.gen_lt_is_job_lt. Qed.
 Print Assumptions C08_generated_lt_is_job_lt.
+(* the constructors of the one-shot and the countdown job, translated by tools/gen_init.py (gen/GenInit.v);
+   CountdownJob.__init__ ends with a call of the GENERATED set_countdown on the fresh object *)
+From EAS Require GenInitEq.
+Theorem C08_generated_once_ctor : forall t key, EASGen.GenInit.gen_once_init t key = Sched.new_job Sched.KOnce t 0 key.
+Proof. exact GenInitEq.gen_once_init_is_new_job. Qed.
+Print Assumptions C08_generated_once_ctor.
+Theorem C08_generated_countdown_ctor : forall E R j key secs s,
+  Sched.jobs s j = EASGen.GenInit.gen_countdown_init_pre key ->
+  EASGen.GenJobs.g_set_countdown E R j secs s = EASGen.GenJobs.g_CountdownJob_set_countdown E R j secs s /\
+  (0 < secs -> EASGen.GenJobs.g_CountdownJob_set_countdown E R j secs s
+               = Some (Sched.set_job j (Sched.new_job Sched.KCountdown 0 secs key) s, GenRtJobs.JRet)) /\
+  (secs <= 0 -> EASGen.GenJobs.g_CountdownJob_set_countdown E R j secs s
+               = Some (s, GenRtJobs.JExc (GenRtJobs.JErr Base.EValueError))).
+Proof.
+  intros E R j key secs s H. split; [exact (GenInitEq.gen_countdown_ctor_dispatch E R j key secs s H)|].
+  split; intros Hs; [exact (GenInitEq.gen_countdown_ctor_ok E R j key secs s H Hs)
+                    |exact (GenInitEq.gen_countdown_ctor_rejects E R j key secs s H Hs)].
+Qed.
+Print Assumptions C08_generated_countdown_ctor.
